@@ -1393,6 +1393,197 @@ async def c05_histories_bounded(w):
             "failures": failures, "reproduced": bool(failures)}
 
 
+# ---------------------------------------------------------------------------------------------------------
+# C07: @time_active windows
+# ---------------------------------------------------------------------------------------------------------
+async def c07_time_active(w):
+    """@time_active("range(10:00, 14:00)", "not range(11:00, 13:00)") with an event at 12:00 (inside the negated window):
+    the statement says no run; also 10:30 (run) and 15:00 (no run)."""
+    import datetime as dtm
+    from types import SimpleNamespace as NS
+    from custom_components.pyscript import trigger as T
+    from custom_components.pyscript.global_ctx import GlobalContext, GlobalContextMgr
+    out = {}
+    for legacy in (False, True):
+        hass = await boot_full(legacy=legacy)
+        runs = []
+        clock = [dtm.datetime(2024, 3, 13, 12, 0, 0)]
+        saved = T.dt_now
+        T.dt_now = lambda: clock[0]
+        src = ('@time_active("range(10:00, 14:00)", "not range(11:00, 13:00)")\n@event_trigger("c07_go")\ndef f(**kw):\n    record(kw)\n')
+        name = "file.c07_" + ("legacy" if legacy else "new")
+        gctx = GlobalContext(name, global_sym_table={"__name__": name, "record": lambda kw_: runs.append(clock[0].strftime("%H:%M"))}, manager=GlobalContextMgr)
+        GlobalContextMgr.set(name, gctx)
+        gctx.set_auto_start(True)
+        _, _, exc = await run_source(name, src, global_ctx=gctx)
+        await settle(30)
+        for hh, mm in ((10, 30), (12, 0), (15, 0)):
+            clock[0] = dtm.datetime(2024, 3, 13, hh, mm, 0)
+            for cb in list(hass.bus.listeners.get("c07_go", [])):
+                await cb(NS(event_type="c07_go", context=None, data={}))
+            await settle(30)
+        gctx.stop()
+        GlobalContextMgr.delete(name)
+        await settle(10)
+        T.dt_now = saved
+        out["legacy" if legacy else "new"] = {"runs": runs, "error": repr(exc) if exc else None}
+        await shutdown()
+    want = ["10:30"]
+    sub = w.get("subsystem")
+    bad = {k: v for k, v in out.items() if v["runs"] != want and (sub is None or sub == k)}
+    return {"reproduced": bool(bad), "observed": out, "expected": {"runs": want, "why": "12:00 lies inside the negated window; 15:00 in no positive window"}}
+
+
+async def c07_hold_off_order(w):
+    """@time_active(hold_off=10) together with @state_active: an occurrence that @state_active rejects (t=100) must not start
+    the hold_off window, so the occurrence at t=105 runs; 108 is inside the window of 105; 116 runs."""
+    from types import SimpleNamespace as NS
+    from custom_components.pyscript import trigger as T
+    from custom_components.pyscript.decorators import timing as TM
+    from custom_components.pyscript.global_ctx import GlobalContext, GlobalContextMgr
+    out = {}
+    saved = (T.time, TM.time)
+    for legacy in (False, True):
+        for order in ("time_active-declared-first", "other-guard-declared-first"):
+            hass = await boot_full(legacy=legacy)
+            table = fake_states(hass)
+            mono = [100.0]
+            T.time = NS(monotonic=lambda: mono[0])
+            TM.time = NS(monotonic=lambda: mono[0])
+            runs = []
+            decs = ['@time_active(hold_off=10)', '@state_active("pyscript.x == \'1\'")']
+            if order.startswith("other"):
+                decs.reverse()
+            src = "\n".join(decs) + '\n@event_trigger("c07_go")\ndef f(**kw):\n    record(kw)\n'
+            name = f"file.c07h_{'l' if legacy else 'n'}_{order[0]}"
+            gctx = GlobalContext(name, global_sym_table={"__name__": name, "record": lambda kw_: runs.append(mono[0])}, manager=GlobalContextMgr)
+            GlobalContextMgr.set(name, gctx)
+            gctx.set_auto_start(True)
+            _, _, exc = await run_source(name, src, global_ctx=gctx)
+            await settle(30)
+            for t, x in ((100.0, "0"), (105.0, "1"), (108.0, "1"), (116.0, "1")):
+                mono[0] = t
+                table["pyscript.x"] = (x, {})
+                for cb in list(hass.bus.listeners.get("c07_go", [])):
+                    await cb(NS(event_type="c07_go", context=None, data={}))
+                await settle(30)
+            gctx.stop()
+            GlobalContextMgr.delete(name)
+            await settle(10)
+            out[f"{'legacy' if legacy else 'new'}:{order}"] = {"runs": runs, "error": repr(exc) if exc else None}
+            await shutdown()
+    T.time, TM.time = saved
+    want = [105.0, 116.0]
+    bad = {k: v for k, v in out.items() if v["runs"] != want}
+    return {"reproduced": bool(bad), "observed": out, "expected": {"runs": want}}
+
+
+def _c07_gen(rng):
+    """structured time-of-day / date specs rendered to text, with their denotation computed from the STRUCTURE"""
+    import datetime as dtm
+    DOW = ["sun", "mon", "tue", "wed", "thu", "fri", "sat"]
+
+    def gen_point():
+        date = rng.choice([("none",), ("none",), ("dow", rng.randrange(7)), ("full", 2024, rng.choice([2, 3, 12]), rng.choice([1, 15, 28, 29])), ("md", rng.choice([3, 4]), rng.choice([1, 10, 31 if False else 30]))])
+        tod = rng.choice([("hms", rng.randrange(24), rng.randrange(60), None), ("hms", rng.randrange(24), rng.choice([0, 30]), rng.choice([0, 59])), ("noon",), ("midnight",)])
+        off = rng.choice([None, None, ("+", 30, "min"), ("-", 1, "h"), ("+", 90, "s"), ("-", 15, "m")])
+        return (date, tod, off)
+
+    def render(p):
+        date, tod, off = p
+        s = ""
+        if date[0] == "dow":
+            s += DOW[date[1]] + " "
+        elif date[0] == "full":
+            s += f"{date[1]}/{date[2]:02d}/{date[3]:02d} "
+        elif date[0] == "md":
+            s += f"{date[1]}/{date[2]} "
+        if tod[0] == "hms":
+            s += f"{tod[1]}:{tod[2]:02d}" + (f":{tod[3]:02d}" if tod[3] is not None else "")
+        else:
+            s += tod[0]
+        if off:
+            s += f" {off[0]} {off[1]}{off[2]}"
+        return s
+
+    def denote(p, base):
+        """documented meaning: the date (default: base's date; weekday: the next such day on or after base's date), at the
+        time of day, plus the offset"""
+        date, tod, off = p
+        d = base.date()
+        if date[0] == "dow":
+            today = base.isoweekday() % 7
+            d = d + dtm.timedelta(days=(date[1] - today) % 7)
+        elif date[0] == "full":
+            d = dtm.date(date[1], date[2], date[3])
+        elif date[0] == "md":
+            d = dtm.date(base.year, date[1], date[2])
+        if tod[0] == "hms":
+            secs = tod[1] * 3600 + tod[2] * 60 + (tod[3] or 0)
+        else:
+            secs = 12 * 3600 if tod[0] == "noon" else 0
+        t = dtm.datetime(d.year, d.month, d.day) + dtm.timedelta(seconds=secs)
+        if off:
+            scale = {"min": 60, "m": 60, "h": 3600, "s": 1}[off[2]]
+            t += dtm.timedelta(seconds=(1 if off[0] == "+" else -1) * off[1] * scale)
+        return t
+    return gen_point, render, denote
+
+
+async def c07_windows_bounded(w):
+    """Bounded stand-in for the text level of @time_active: random lists of <= 4 positive / negated range() entries from
+    a structured grammar (daily, dated, weekday, wrapping, offsets), evaluated by the REAL timer_active_check /
+    parse_date_time at the exact end points and +/- 1 microsecond, against the denotation computed from the structure."""
+    import random
+    import datetime as dtm
+    from custom_components.pyscript.trigger import TrigTime
+    await boot_full()
+    rng = random.Random(20240313 + int(w.get("seed", 0)))
+    gen_point, render, denote = _c07_gen(rng)
+    failures, cases = [], 0
+    startup = dtm.datetime(2024, 3, 1, 8, 0, 0)
+    us = dtm.timedelta(microseconds=1)
+    n_lists = int(w.get("lists", 400))
+    for _ in range(n_lists):
+        n = rng.randrange(1, 5)
+        entries = []
+        for _i in range(n):
+            a, b = gen_point(), gen_point()
+            if rng.random() < 0.5:
+                b = (("none",), b[1], b[2])  # the common daily form
+                a = (a[0] if rng.random() < 0.3 else ("none",), a[1], a[2])
+            entries.append((rng.random() < 0.4, a, b))
+        texts = [("not " if neg else "") + f"range({render(a)}, {render(b)})" for neg, a, b in entries]
+        base_days = [dtm.datetime(2024, 3, 13), dtm.datetime(2024, 2, 29), dtm.datetime(2024, 12, 31)]
+        probe = []
+        for day in base_days[: 1 + rng.randrange(3)]:
+            for neg, a, b in entries:
+                s0 = denote(a, day)
+                e0 = denote(b, s0)
+                for x in (s0, e0):
+                    if x.date() == day.date():
+                        probe += [x - us, x, x + us]
+            probe += [day + dtm.timedelta(seconds=rng.randrange(86400)) for _k in range(3)]
+        for now in probe:
+            def matches(a, b):
+                s0 = denote(a, now)
+                e0 = denote(b, s0)
+                return (s0 <= now <= e0) if s0 <= e0 else (now >= s0 or now <= e0)
+            pos = [matches(a, b) for neg, a, b in entries if not neg]
+            negs = [matches(a, b) for neg, a, b in entries if neg]
+            want = (any(pos) if pos else True) and not any(negs)
+            try:
+                got = await TrigTime.timer_active_check(list(texts) if (len(texts) > 1 or rng.random() < 0.5) else texts[0], now, startup)
+            except Exception as e:  # noqa
+                got = "exception:" + repr(e)
+            cases += 1
+            if got != want and len(failures) < 3:
+                failures.append({"signature": f"windows:{texts}@{now.isoformat()}", "entries": texts, "now": now.isoformat(), "observed": got, "expected": want})
+    await shutdown()
+    return {"unit": "TrigTime.timer_active_check + parse_date_time on real text", "method": "structured random specs vs denotation computed from the structure",
+            "bound": f"{n_lists} lists of <= 4 range() entries x end points +/- 1us on up to 3 days (seeded)", "cases": cases, "failures": failures, "reproduced": bool(failures)}
+
+
 SCENARIOS = {k: v for k, v in list(globals().items()) if asyncio.iscoroutinefunction(v) and k[0] == "c"}
 
 if __name__ == "__main__":
